@@ -22,15 +22,40 @@ pub(crate) fn accepted(identity: Identity) {
     }
 }
 
+/// The value type of the wait-for map, whatever it carries besides the callee's identity.
+#[cfg(feature = "deadlock-detection")]
+pub trait EdgeVal {
+    fn callee(&self) -> u64;
+    fn make(id: u64) -> Self;
+}
+#[cfg(feature = "deadlock-detection")]
+impl EdgeVal for Identity {
+    fn callee(&self) -> u64 {
+        self.id
+    }
+    fn make(id: u64) -> Self {
+        Identity::new(id, "N")
+    }
+}
+#[cfg(feature = "deadlock-detection")]
+impl EdgeVal for (Identity, u64) {
+    fn callee(&self) -> u64 {
+        self.0.id
+    }
+    fn make(id: u64) -> Self {
+        (Identity::new(id, "N"), 0)
+    }
+}
+
 /// Snapshot of the wait-for graph as sorted `(caller id, callee id)` pairs.
 #[cfg(feature = "deadlock-detection")]
 pub fn wait_for_edges() -> Vec<(u64, u64)> {
     let mut edges: Vec<(u64, u64)> = match crate::wait_for_graph().lock() {
-        Ok(graph) => graph.iter().map(|(k, v)| (*k, v.0.id)).collect(),
+        Ok(graph) => graph.iter().map(|(k, v)| (*k, v.callee())).collect(),
         Err(poisoned) => poisoned
             .into_inner()
             .iter()
-            .map(|(k, v)| (*k, v.0.id))
+            .map(|(k, v)| (*k, v.callee()))
             .collect(),
     };
     edges.sort_unstable();
@@ -44,11 +69,8 @@ pub fn wait_for_poisoned() -> bool {
 }
 
 #[cfg(feature = "deadlock-detection")]
-fn graph_of(edges: &[(u64, u64)]) -> std::collections::HashMap<u64, (Identity, u64)> {
-    edges
-        .iter()
-        .map(|(k, v)| (*k, (Identity::new(*v, "N"), 0)))
-        .collect()
+fn graph_of<V: EdgeVal>(edges: &[(u64, u64)]) -> std::collections::HashMap<u64, V> {
+    edges.iter().map(|(k, v)| (*k, V::make(*v))).collect()
 }
 
 /// Runs the crate's `has_path` on the graph given as `(caller, callee)` pairs.
